@@ -383,7 +383,7 @@ def build(race=False, verbose=True):
 def prune(keep):
     ds = [d for d in glob.glob(os.path.join(BUILD, "*")) if os.path.isdir(d) and os.path.basename(d) not in ("bin", keep)]
     ds.sort(key=os.path.getmtime, reverse=True)
-    for d in ds[2:]:
+    for d in ds[12:]:  # other checks (other trees via VERIF_REPO, the race build) may be using theirs
         shutil.rmtree(d, ignore_errors=True)
 
 
